@@ -18,6 +18,7 @@ for sid in sys.argv[1:]:
                 rows.append({"check": m.group(1), "rc": int(m.group(2)), "violation_signatures": int(m.group(3)), "first": m.group(4)})
     prop = sid.split("-")[0]
     detected = [r["check"] for r in rows if r["rc"] == 1]
+    old = json.load(open(f"{d}/meta.json", encoding="utf-8")) if os.path.exists(f"{d}/meta.json") else {}
     meta = {
         "id": sid,
         "breaks_property": prop,
@@ -31,5 +32,8 @@ for sid in sys.argv[1:]:
         "harness_errors": [r["check"] for r in rows if r["rc"] == 2],
         "first_report_of_target_check": next((r["first"] for r in rows if r["check"] == prop and r["rc"] == 1), None),
     }
+    for k in ("initially_missed_by_target_check", "strengthened", "patch_note"):
+        if k in old:
+            meta[k] = old[k]
     json.dump(meta, open(f"{d}/meta.json", "w", encoding="utf-8"), indent=1, ensure_ascii=False)
     print(sid, "target" if meta["detected_by_target_check"] else "MISSED-BY-TARGET", detected, meta["harness_errors"])
